@@ -255,6 +255,7 @@ def case_strategy():
 B_SMALL = {"status": "200 OK", "mode": "list", "chunks": ["hi"], "declared_cl": 2}
 B1 = {"status": "200 OK", "mode": "list", "chunks": ["hello"], "declared_cl": 5}
 B2 = {"status": "200 OK", "mode": "write", "chunks": ["ab", "c" * 40], "declared_cl": 42}
+B8 = {"status": "200 OK", "mode": "write", "chunks": ["ab"] * 8, "declared_cl": 16}
 def expect_cut(reqs):
     """cut right after the header block of the last expecting request (its body is sent after the interim response)"""
     stream = ""
@@ -269,7 +270,15 @@ def expect_cut(reqs):
 
 E1 = [{"method": "GET"}, {"method": "POST", "body": "abc", "expect": True}]
 E2 = [{"method": "GET"}, {"method": "GET"}, {"method": "POST", "body": "x" * 50, "expect": True}, {"method": "GET"}]
+E3 = [{"method": "GET"}, {"method": "POST", "body": "abc", "expect": True}, {"method": "GET"}]
+_e3 = expect_cut(E3)[0]
 FIXED = [
+    # a client that does not wait for 100 Continue: header block, then body + the start of a further request, then the rest; a second
+    # connection keeps the loop turning, so that the first one's readability is re-evaluated at arbitrary moments
+    {"conns": [{"reqs": E3, "cuts": [_e3, _e3 + 3 + 12], "wait_continue": False},
+               {"reqs": [{"method": "GET"}, {"method": "GET"}, {"method": "GET"}], "cuts": list(range(8, 130, 8))}],
+     "apps": [B8], "adj": {"threads": 3}, "stall_runs": 500},
+    {"conns": [{"reqs": E3, "cuts": [_e3, _e3 + 3 + 12], "wait_continue": False}], "apps": [B2], "adj": {"threads": 2}},
     {"conns": [{"reqs": E1, "cuts": expect_cut(E1), "wait_continue": True, "capacity": 8, "drain": 8}], "apps": [B_SMALL], "adj": {"threads": 1}},
     {"conns": [{"reqs": E1, "cuts": expect_cut(E1), "wait_continue": True}], "apps": [B_SMALL], "adj": {"threads": 2, "channel_request_lookahead": 1}},
     {"conns": [{"reqs": E2, "cuts": expect_cut(E2), "wait_continue": True, "capacity": 16, "drain": "all"}], "apps": [B_SMALL], "adj": {"threads": 2}},
